@@ -1,5 +1,74 @@
+import Agd.Model.Buffers
 import Agd.Driver.Util
-/-! Line-protocol driver for the C06 model (stub: not built yet). -/
+/-! Line-protocol driver for the C06 model (pooled receive buffers).
+
+```
+init <udp> <tcp> <doq> <upsudp> <upstcp>     -> ok
+recv <path> <pick|-> <prehex|-> <wirehex|->  -> <buflen> <first 48 residue bytes hex|-> <outcome> <consumed>
+old  <path> <pick|-> <prehex|-> <wirehex|->  -> same, with the pre-fix DoQ / upstream code
+```
+`outcome` is `reject:<why>` or `view:<hex|->`; `consumed` is the number of stream bytes taken (TCP). -/
 namespace Agd.Driver.C06
-def main : IO Unit := Agd.Driver.loop (fun (s : Unit) _ => (s, "bad-op")) ()
+open Agd.Buffers Agd.Driver
+
+def hexVal (c : Char) : Nat :=
+  if '0' ≤ c ∧ c ≤ '9' then c.toNat - '0'.toNat
+  else if 'a' ≤ c ∧ c ≤ 'f' then c.toNat - 'a'.toNat + 10
+  else if 'A' ≤ c ∧ c ≤ 'F' then c.toNat - 'A'.toNat + 10
+  else 0
+
+def unhexL : List Char → List UInt8 → List UInt8
+  | a :: b :: r, acc => unhexL r (UInt8.ofNat (hexVal a * 16 + hexVal b) :: acc)
+  | _, acc => acc.reverse
+
+def unhex (s : String) : Bytes := if s == "-" then [] else unhexL s.toList []
+
+def hexDigit (n : Nat) : Char := if n < 10 then Char.ofNat (48 + n) else Char.ofNat (87 + n)
+
+def hex (b : Bytes) : String :=
+  if b.isEmpty then "-"
+  else String.ofList (b.foldr (fun x acc => hexDigit (x.toNat / 16) :: hexDigit (x.toNat % 16) :: acc) [])
+
+def parsePath : String → Option Path
+  | "udp" => some .udp | "tcp" => some .tcp | "doq" => some .doq
+  | "upsudp" => some .upsUdp | "upstcp" => some .upsTcp | _ => none
+
+def showWhy : Why → String
+  | .short => "short" | .badsize => "badsize" | .readerr => "readerr"
+  | .readfull => "readfull" | .oversize => "oversize"
+
+def showOut : Outcome → String
+  | .reject w => "reject:" ++ showWhy w
+  | .view b => "view:" ++ hex b
+
+def doRecv (old : Bool) (s : Server) (p : Path) (pick pre wire : String) : Server × String :=
+  let op : Op := { path := p, pick := if pick == "-" then none else some (nat! pick),
+                   pre := unhex pre, wire := unhex wire }
+  let tb := takeBuf (s.cfg.size p) (s.free p) op.pick
+  let seen := match p with
+    | .upsUdp | .upsTcp => overwrite tb.1 op.pre
+    | _ => tb.1
+  let r := if old then stepOld s op else step s op
+  let consumed := match p with
+    | .tcp => (recvTCP tb.1 op.wire).2.2
+    | _ => op.wire.length
+  (r.1, s!"{seen.length} {hex (seen.take 48)} {showOut r.2} {consumed}")
+
+def step (s : Server) : List String → Server × String
+  | ["init", a, b, c, d, e] =>
+    (Server.init { udp := nat! a, tcp := nat! b, doq := nat! c, upsUdp := nat! d, upsTcp := nat! e }, "ok")
+  | ["recv", "doh", _, _, wire] =>
+    (s, s!"0 - {showOut (recvDoH (unhex wire))} {(unhex wire).length}")
+  | ["recv", path, pick, pre, wire] =>
+    match parsePath path with
+    | some p => doRecv false s p pick pre wire
+    | none => (s, "bad-op")
+  | ["old", path, pick, pre, wire] =>
+    match parsePath path with
+    | some p => doRecv true s p pick pre wire
+    | none => (s, "bad-op")
+  | _ => (s, "bad-op")
+
+def main : IO Unit := loop step (Server.init Cfg.prod)
+
 end Agd.Driver.C06
